@@ -5,7 +5,7 @@
    and control built-ins as actions) and dependency_hypothesis (an assignment changes the from-scratch value only of
    nodes whose snapshot contains the assigned variable's snapshot).  proofs/Findings.v shows the second cannot be
    dropped (D2/D3, recorded findings). *)
-From Grule Require Import Base Values Syntax EngineAbs Facts Eval Refinement RefineTheorems Findings.
+From Grule Require Import Base Values Syntax EngineAbs Facts Eval Frame FrameTheorems Refinement RefineTheorems Findings.
 Theorem C01 : forall rules meth panics_inside mutating
   (meth_pure : forall fs f args ret fs', mutating f = false -> meth fs f args = Ok (ret, fs') -> fs' = fs),
   rules_ok rules mutating -> dependency_hypothesis rules meth mutating ->
@@ -20,3 +20,14 @@ Theorem C01_hypothesis_needed :
     when_from_scratch d2_rules nometh (facts_after d2_rules nometh d2_facts pre) k = CFalse.
 Proof. exact C01_without_dependency_hypothesis_refuted. Qed.
 Print Assumptions C01_hypothesis_needed.
+
+(* for flat rule sets (proofs/Frame.v: fields of top-level facts, constants, negation, parentheses, binary operators;
+   assignments and control built-ins) both hypotheses are theorems *)
+Theorem C01_flat : forall meth panics_inside mutating
+  (meth_pure : forall fs f args ret fs', mutating f = false -> meth fs f args = Ok (ret, fs') -> fs' = fs)
+  rules, flat_rules rules = true ->
+  forall es, NoDup (map e_key es) -> forall c, (0 <= c_max c)%Z ->
+  forall order, (forall i l, Permutation.Permutation (order i l) l) ->
+  C01_statement rules meth panics_inside es c order.
+Proof. exact FrameTheorems.C01_flat. Qed.
+Print Assumptions C01_flat.
